@@ -11,3 +11,156 @@ pub open spec fn fv_guard(w: World, op: FOp) -> bool {
     &&& op_guard(w, op)
     &&& fv_units_moved(op) ==> xfer_guard(op_post(w, op), op_from(op), op_to(op), op_amount(op) as u128)
 }
+
+// ---- the two key families do not overlap ----
+pub proof fn lemma_votes_key_not_fung(k: VotesStorageKey)
+    ensures !is_bal_key(k.sv()), k.sv() != supply_key(),
+{
+    let b = bal_key(Address { id: 0 })->Vec_0[0];
+    match k {
+        VotesStorageKey::Delegatee(a) => { assert(k.sv()->Vec_0[0] != b); }
+        VotesStorageKey::NumCheckpoints(a) => { assert(k.sv()->Vec_0[0] != b); }
+        VotesStorageKey::DelegateCheckpoint(a, i) => { assert(k.sv()->Vec_0.len() == 3); }
+        VotesStorageKey::NumTotalSupplyCheckpoints => { assert(k.sv()->Vec_0[0] != supply_key()->Vec_0[0]); }
+        VotesStorageKey::TotalSupplyCheckpoint(i) => { assert(k.sv()->Vec_0[0] != b); }
+        VotesStorageKey::VotingUnits(a) => { assert(k.sv()->Vec_0[0] != b); }
+    }
+}
+pub proof fn lemma_fung_key_not_votes(a: Address, k: VotesStorageKey)
+    ensures bal_key(a) != k.sv(), supply_key() != k.sv(), !is_units_key(bal_key(a)), !is_deleg_key(bal_key(a)),
+{
+    lemma_votes_key_not_fung(k);
+    lemma_bal_key_facts(a);
+    assert(bal_key(a)->Vec_0[0] != sym_units());
+    assert(bal_key(a)->Vec_0[0] != sym_deleg());
+}
+
+// ---- the token view is untouched by votes writes ----
+pub open spec fn fung_same(w: World, w2: World) -> bool {
+    &&& w2.same_ledger(w)
+    &&& w2.temporary == w.temporary && w2.temp_live == w.temp_live
+    &&& forall|k: SV| #[trigger] is_bal_key(k) ==> w2.persistent.contains_key(k) == w.persistent.contains_key(k) && w2.persistent[k] == w.persistent[k]
+    &&& w2.instance.contains_key(supply_key()) == w.instance.contains_key(supply_key())
+    &&& w2.instance[supply_key()] == w.instance[supply_key()]
+    &&& sum_bal(w2) == sum_bal(w)
+    &&& forall|a: Address| #[trigger] replay_bal(w2.events, a) == replay_bal(w.events, a)
+    &&& replay_supply(w2.events) == replay_supply(w.events)
+}
+pub proof fn lemma_fs_trans(w: World, w1: World, w2: World)
+    requires fung_same(w, w1), fung_same(w1, w2),
+    ensures fung_same(w, w2),
+{
+    assert forall|k: SV| #[trigger] is_bal_key(k) implies w2.persistent.contains_key(k) == w.persistent.contains_key(k) && w2.persistent[k] == w.persistent[k] by {}
+    assert forall|a: Address| #[trigger] replay_bal(w2.events, a) == replay_bal(w.events, a) by { assert(replay_bal(w1.events, a) == replay_bal(w.events, a)); }
+}
+pub proof fn lemma_fs_views(w: World, w2: World)
+    requires fung_same(w, w2),
+    ensures forall|a: Address| #[trigger] bal(w2, a) == bal(w, a), supply(w2) == supply(w),
+        forall|o: Address, s: Address| #[trigger] allow_data(w2, o, s) == allow_data(w, o, s),
+{
+    assert forall|a: Address| #[trigger] bal(w2, a) == bal(w, a) by { lemma_bal_key_facts(a); }
+}
+pub proof fn lemma_fs_inv(w: World, w2: World)
+    requires fung_same(w, w2), inv(w), inv_ev(w),
+    ensures inv(w2), inv_ev(w2),
+{
+    lemma_fs_views(w, w2);
+    assert forall|k: SV| #[trigger] w2.persistent.contains_key(k) && is_bal_key(k) implies (w2.persistent[k] is I128) && w2.persistent[k]->I128_0 >= 0 by {
+        assert(w.persistent.contains_key(k));
+    }
+    assert forall|a: Address| replay_bal(w2.events, a) == bal(w2, a) by { assert(replay_bal(w.events, a) == bal(w, a)); }
+}
+pub proof fn lemma_fs_pset(w: World, k: VotesStorageKey, v: SV)
+    ensures fung_same(w, pset(w, k, v)), fung_same(w, pdel(w, k)), fung_same(w, iset(w, k, v)),
+{
+    lemma_votes_key_not_fung(k);
+    lemma_psum_insert(w.persistent, bal_proj(), k.sv(), v);
+    lemma_psum_remove_key(w.persistent, bal_proj(), k.sv());
+}
+pub open spec fn not_token_event(ev: SV) -> bool {
+    ev_tag(ev) != tag_transfer() && ev_tag(ev) != tag_mint() && ev_tag(ev) != tag_burn()
+}
+pub proof fn lemma_fs_event(w: World, ev: SV)
+    requires not_token_event(ev),
+    ensures fung_same(w, w_event(w, ev)),
+{
+    assert forall|a: Address| #[trigger] replay_bal(w_event(w, ev).events, a) == replay_bal(w.events, a) by { lemma_replay_push(w.events, ev, a); }
+    lemma_replay_push(w.events, ev, a0());
+}
+pub proof fn lemma_fs_push(w: World, t: CheckpointType, op: CheckpointOp, delta: u128)
+    ensures fung_same(w, push_post(w, t, op, delta)),
+{
+    let n = cp_num(w, t);
+    let c = push_cp(w, t, op, delta);
+    if push_same_ledger(w, t) {
+        lemma_fs_pset(w, cp_key(t, (n - 1) as u32), c.sv());
+    } else {
+        let w1 = pset(w, cp_key(t, n), c.sv());
+        lemma_fs_pset(w, cp_key(t, n), c.sv());
+        match t {
+            CheckpointType::TotalSupply => { lemma_fs_pset(w1, VotesStorageKey::NumTotalSupplyCheckpoints, ((n + 1) as u32).sv()); }
+            CheckpointType::Account(a) => { lemma_fs_pset(w1, VotesStorageKey::NumCheckpoints(a), ((n + 1) as u32).sv()); }
+        }
+        lemma_fs_trans(w, w1, push_post(w, t, op, delta));
+    }
+}
+pub proof fn lemma_fs_move1(w: World, d: Option<Address>, op: CheckpointOp, amt: u128)
+    ensures fung_same(w, move1_post(w, d, op, amt)),
+{
+    match d {
+        Some(a) => {
+            let w1 = push_post(w, t_acct(a), op, amt);
+            lemma_fs_push(w, t_acct(a), op, amt);
+            let ev = DelegateVotesChanged { delegate: a, previous_votes: cp_latest(w, t_acct(a)), new_votes: cp_apply(cp_latest(w, t_acct(a)), op, amt) as u128 }.ev();
+            assert(not_token_event(ev));
+            lemma_fs_event(w1, ev);
+            lemma_fs_trans(w, w1, move1_post(w, d, op, amt));
+        }
+        None => {}
+    }
+}
+pub proof fn lemma_fs_move(w: World, fd: Option<Address>, td: Option<Address>, amt: u128)
+    ensures fung_same(w, move_post(w, fd, td, amt)),
+{
+    if !(amt == 0 || fd == td) {
+        let w1 = move1_post(w, fd, CheckpointOp::Sub, amt);
+        lemma_fs_move1(w, fd, CheckpointOp::Sub, amt);
+        lemma_fs_move1(w1, td, CheckpointOp::Add, amt);
+        lemma_fs_trans(w, w1, move_post(w, fd, td, amt));
+    }
+}
+pub proof fn lemma_fs_xfer(w: World, from_a: Option<Address>, to_a: Option<Address>, amt: u128)
+    ensures fung_same(w, xfer_post(w, from_a, to_a, amt)),
+{
+    if amt != 0 {
+        let w1 = xfer_from_post(w, from_a, amt);
+        let w2 = xfer_to_post(w1, to_a, amt);
+        match from_a {
+            Some(f) => { lemma_fs_pset(w, VotesStorageKey::VotingUnits(f), ((v_units(w, f) - amt) as u128).sv()); }
+            None => { lemma_fs_push(w, t_total(), CheckpointOp::Add, amt); }
+        }
+        match to_a {
+            Some(t) => { lemma_fs_pset(w1, VotesStorageKey::VotingUnits(t), ((v_units(w1, t) + amt) as u128).sv()); }
+            None => { lemma_fs_push(w1, t_total(), CheckpointOp::Sub, amt); }
+        }
+        lemma_fs_trans(w, w1, w2);
+        lemma_fs_move(w2, v_delegatee_opt(w, from_a), v_delegatee_opt(w, to_a), amt);
+        lemma_fs_trans(w, w2, xfer_post(w, from_a, to_a, amt));
+    }
+}
+pub proof fn lemma_fs_delegate(w: World, acct: Address, d: Address)
+    ensures fung_same(w, delegate_post(w, acct, d)),
+{
+    let w1 = w_auth(w, acct);
+    let w2 = pset(w1, VotesStorageKey::Delegatee(acct), d.sv());
+    let ev = DelegateChanged { delegator: acct, from_delegate: v_delegatee(w, acct), to_delegate: d }.ev();
+    let w3 = delegate_pre(w, acct, d);
+    assert(fung_same(w, w1));
+    lemma_fs_pset(w1, VotesStorageKey::Delegatee(acct), d.sv());
+    lemma_fs_trans(w, w1, w2);
+    assert(not_token_event(ev));
+    lemma_fs_event(w2, ev);
+    lemma_fs_trans(w, w2, w3);
+    lemma_fs_move(w3, v_delegatee(w, acct), Some(d), v_units(w3, acct));
+    lemma_fs_trans(w, w3, delegate_post(w, acct, d));
+}
